@@ -41,4 +41,36 @@ ENTRIES = {
         "note": TB + "; the known finding is matched only on signature C11/seal-2w-wide-state (State > 2 Words, seal [w,0], side-oracle unpinned)",
         "technique": "runtime monitoring: suffix-injection round trips + analytic interval-containment oracle on observed encoder state, steered to the seal edge",
     },
+    "C04": {
+        "text": "Loads arbitrary word sequences (emphasising zero words next to the implicit marker, all-zero, all-ones, empty) as raw binary "
+                "data into the real AnsCoder through three import paths, decodes up to 200 symbols with mixed models and precisions, encodes "
+                "them back in reverse and requires word-for-word restoration through into_binary and get_binary on Vec and reversed-cursor "
+                "backends, exact num_valid_bits at both ends, no decode failure, and lock-step agreement with the reference rANS.",
+        "note": TB,
+        "technique": "runtime monitoring: decode/re-encode round trip on arbitrary data with lock-step reference rANS and cross-backend twins",
+    },
+    "C07": {
+        "text": "Takes a position/state snapshot at every symbol boundary of real encoders (ANS after each push; range encoder before each symbol and at the "
+                "end, tens of thousands of them while words are held back for a pending carry) and replays seeks in hostile orders on every seekable decoder "
+                "construction the library offers, checking the symbols that follow each seek, possibly-exhausted at the final position, refusal of "
+                "out-of-range positions and that a refused seek leaves the decoder undisturbed.",
+        "note": TB,
+        "technique": "runtime monitoring: recorded-history oracle over snapshot/seek/decode histories with state-steered encoders",
+    },
+    "C08": {
+        "text": "Drives inspected coders and uninspected twins with identical operations; every temporary view / decoder / iterator / clone / size query is "
+                "compared with what finishing a clone at that moment returns, the raw parts are compared before and after the view is dropped, and the final "
+                "outputs of coder and twin must coincide - for AnsCoder (plain and raw-binary views), RangeEncoder (tens of thousands of inspections while inverted) "
+                "and the bit-level stack/queue coders at every fill level of the current word.",
+        "note": TB,
+        "technique": "runtime monitoring: differential twins + clone-and-finish oracle + raw-parts invariants around injected inspections",
+    },
+    "C12": {
+        "text": "Checks the statement's analytic bound after every symbol of long messages on both coders and all type rows, with adversarial symbol choices "
+                "(always least probable, always most probable, flush-edge steering), using the library's own size queries plus a counting backend for the "
+                "one-word-per-ANS-symbol clause; reports the maximum excess actually observed per row as telemetry. A per-symbol or per-word waste exceeds the "
+                "constant within a few hundred symbols; constant-size waste is C06's business.",
+        "note": TB + "; f64 information content with Kahan summation and a 1e-6 bit guard",
+        "technique": "runtime monitoring: online bound monitor on size queries and a write-counting backend under adversarial symbol choice",
+    },
 }
